@@ -26,6 +26,8 @@ example :
     threshold [.accept 7, .accept 3, .tick, .accept 9, .tick, .tick] = 10 := by
   decide
 
+-- all four generated guards of `decrypt` are listed in each `simp only`, whether the branch at hand needs them or not
+set_option linter.unusedSimpArgs false in
 /-- what `decrypt` does to the addressed slot on an authentic, decryptable datagram: accept iff nonce ≥ window floor, and then `slotStep (.accept nonce)` -/
 theorem decrypt_authentic (c : Core) (d : Dgram) (k : SlotKey) (p : Bytes)
     (hlen : d.len ≥ 24) (hid : d.keyId < 4) (hk : c.slots[d.keyId]? = some k)
@@ -35,13 +37,15 @@ theorem decrypt_authentic (c : Core) (d : Dgram) (k : SlotKey) (p : Bytes)
     (c.reconstruct d.counter < k.min → (c.decrypt d).2 = .error .oldNonce ∧ (c.decrypt d).1 = c) := by
   have h1 : ¬ d.len < Generated.EXTRA_LEN + Generated.TAG_LEN := by
     simp only [Generated.EXTRA_LEN, Generated.TAG_LEN]; omega
-  have h2 : ¬ d.keyId ≥ Core.SLOTS := by simp only [Core.SLOTS]; omega
+  have h2 : ¬ d.keyId ≥ 4 := by omega
   constructor
   · intro hmin
     have h3 : ¬ c.reconstruct d.counter < k.min := by omega
-    simp only [Core.decrypt, h1, h2, hk, hb, h3, if_false, and_self, if_true, slotStep]
+    simp only [Core.decrypt, Generated.datagramTooShort, Generated.keyIdInvalid, Generated.nonceTooOld,
+      Generated.seenAdvances, decide_eq_true_eq, h1, h2, hk, hb, h3, if_false, and_self, if_true, slotStep]
   · intro hmin
-    simp only [Core.decrypt, h1, h2, hk, hmin, if_false, if_true, and_self]
+    simp only [Core.decrypt, Generated.datagramTooShort, Generated.keyIdInvalid, Generated.nonceTooOld,
+      Generated.seenAdvances, decide_eq_true_eq, h1, h2, hk, hmin, if_false, if_true, and_self]
 
 /-- example core for the non-vacuity checks -/
 def exCore : Core :=
